@@ -78,7 +78,7 @@ def handle (fields : List String) : String :=
         let a := s'.ans
         let m := join [toString a.status, b01 a.written, toString a.size, "-", "ok", showCT s'.u.ct, "-"] ","
         let sp := join [toString (Spec.status s'.u.log), b01 (Spec.written s'.u.log), toString (Spec.size s'.u.log),
-                        (if Spec.wellFormed s'.u.log then "wf" else "illformed")] ","
+                        (if Spec.wellFormed s'.u.log then "wf" else "illformed"), "-"] ","
         (s', ms ++ [m], ss ++ [sp], addTag tags "ct-preset")
       | (some c, false) =>
         let (s', r) := step sh s c
@@ -88,7 +88,8 @@ def handle (fields : List String) : String :=
                        (match r.n with | some n => toString n | none => "-"), showErr r.err, showCT s'.u.ct,
                        (if evs.isEmpty then "-" else join (evs.map showEv) "+")] ","
         let sp := join [toString (Spec.status s'.u.log), b01 (Spec.written s'.u.log), toString (Spec.size s'.u.log),
-                        (if Spec.wellFormed s'.u.log then "wf" else "illformed")] ","
+                        (if Spec.wellFormed s'.u.log then "wf" else "illformed"),
+                        Spec.showCapability (Spec.capability sh c)] ","
         let tags := addTag tags (callTag sh s c)
         let tags := if r.err == .fault then addTag tags "fault" else tags
         let tags := if r.err == .src then addTag tags "srcerr" else tags
